@@ -115,11 +115,11 @@ Print Assumptions C04_path_rewrite_spec.
    transformed by exactly the operations of the rules that target this key, in table order —
    set = last configured value (skipped when its replacement is empty), + = append every non-empty
    replacement, - = delete, regex = rewrite the first value; every other header is untouched.
-   (Placeholders read the client's own header map: the situation when the map was copied, and
-   always for header_downstream.) *)
+   (h0 = r.Header, the client's own header map, which the placeholders read; the rules rewrite a
+   different map: the upstream request's own copy, or the backend response's headers.) *)
 Theorem C04_header_rules_exact :
   forall e h0 rules res h k,
-  hlookup (mutate_headers e (Some h0) rules res h) k =
+  hlookup (mutate_headers e h0 rules res h) k =
   fold_left vop_apply (vops_for (subst_of e h0) rules k ++ revops_for (subst_of e h0) res k) (hlookup h k).
 Proof. exact mutate_headers_lookup. Qed.
 Print Assumptions C04_header_rules_exact.
@@ -128,7 +128,7 @@ Theorem C04_header_rules_touch_nothing_else :
   forall e h0 rules res h k,
   (forall r, In r rules -> rule_target (fst r) <> k) ->
   (forall r, In r res -> canon_key (fst r) <> k) ->
-  hlookup (mutate_headers e (Some h0) rules res h) k = hlookup h k.
+  hlookup (mutate_headers e h0 rules res h) k = hlookup h k.
 Proof. exact mutate_headers_untouched. Qed.
 Print Assumptions C04_header_rules_touch_nothing_else.
 
@@ -137,7 +137,7 @@ Print Assumptions C04_header_rules_touch_nothing_else.
    the request goes to the chosen upstream's host. *)
 Theorem C04_upstream_request_spec :
   forall c e h0 st t,
-  let o := snd (attempt c e (Some h0) st t) in
+  let o := snd (attempt c e h0 st t) in
   (forall k, hlookup (o_hdr o) k =
              fold_left vop_apply (vops_for (subst_of e h0) (c_up c) k ++ revops_for (subst_of e h0) (c_upre c) k)
                        (hlookup (auth_hdr t (s_hdr st)) k)) /\
@@ -159,8 +159,8 @@ Theorem C04_retry_every_attempt_spec :
     u_query (o_url o) = spec_query t (u_query (q_url q)) /\
     o_urlhost o = t_host t /\
     (forall k, hlookup (o_hdr o) k =
-               fold_left vop_apply (vops_for (subst_of (env_of q) (live_retriable q)) (c_up c) k ++
-                                    revops_for (subst_of (env_of q) (live_retriable q)) (c_upre c) k)
+               fold_left vop_apply (vops_for (subst_of (env_of q) (q_hdr q)) (c_up c) k ++
+                                    revops_for (subst_of (env_of q) (q_hdr q)) (c_upre c) k)
                          (hlookup (auth_hdr t (create_upstream_headers (q_remote q) (q_hdr q))) k)).
 Proof. exact retry_every_attempt_spec. Qed.
 Print Assumptions C04_retry_every_attempt_spec.
@@ -172,17 +172,33 @@ Example C04_retry_every_attempt_nonvacuous :
     hlookup (o_hdr o2) (bs "X-A"%string) = Some [bs "lit"%string] /\ o2 = o1.
 Proof. exact retry_rewrite_once. Qed.
 
-(* ... and when no hop-by-hop header was removed the header map is NOT copied, so placeholders
-   read what the proxy itself wrote (known finding F-C04-5): the same rule yields different values
-   depending on whether the client happened to send `Connection: keep-alive`. *)
-Theorem C04_placeholder_alias_refuted :
-  exists c q q' t o o',
-    q_hdr q' = q_hdr q ++ [(K_CONNECTION, [bs "keep-alive"%string])] /\
-    fst (run_request c false q [t]) = [o] /\ fst (run_request c false q' [t]) = [o'] /\
-    hlookup (o_hdr o) (bs "X-New"%string) = Some [bs "1.1.1.1, 192.0.2.7"%string] /\
-    hlookup (o_hdr o') (bs "X-New"%string) = Some [bs "1.1.1.1"%string].
-Proof. exact placeholder_alias_refuted. Qed.
-Print Assumptions C04_placeholder_alias_refuted.
+(* The request the backend receives (first attempt, with or without retries), for EVERY configuration
+   and client request: the upstream request has its own header map, so the {>Header} placeholders of
+   the rules read what the CLIENT sent (q_hdr q) - never X-Forwarded-For as appended by the proxy,
+   the upstream's credentials or what another rule wrote - and the result is the stripped headers
+   (+ upstream credentials) transformed by exactly the configured operations. *)
+Theorem C04_placeholders_read_client_headers :
+  forall c retriable q t ts,
+  exists o os, fst (run_request c retriable q (t :: ts)) = o :: os /\
+    u_path (o_url o) = spec_path t (c_without c) (u_path (q_url q)) /\
+    u_query (o_url o) = spec_query t (u_query (q_url q)) /\
+    o_urlhost o = t_host t /\
+    (forall k, hlookup (o_hdr o) k =
+               fold_left vop_apply (vops_for (subst_of (env_of q) (q_hdr q)) (c_up c) k ++
+                                    revops_for (subst_of (env_of q) (q_hdr q)) (c_upre c) k)
+                         (hlookup (auth_hdr t (create_upstream_headers (q_remote q) (q_hdr q))) k)).
+Proof. exact first_attempt_spec. Qed.
+Print Assumptions C04_placeholders_read_client_headers.
+
+(* the witness of the former finding F-C04-5: `header_upstream X-New {>X-Forwarded-For}` yields the
+   client's value whether or not the client also sent `Connection: keep-alive` *)
+Example C04_placeholders_read_client_headers_nonvacuous :
+  exists o o',
+    fst (run_request wit_c5 false wit_q [wit_t]) = [o] /\ fst (run_request wit_c5 false wit_q' [wit_t]) = [o'] /\
+    hlookup (o_hdr o) (bs "X-New"%string) = Some [bs "1.1.1.1"%string] /\
+    hlookup (o_hdr o') (bs "X-New"%string) = Some [bs "1.1.1.1"%string] /\
+    hlookup (o_hdr o) K_XFF = Some [bs "1.1.1.1, 192.0.2.7"%string].
+Proof. exact placeholder_reads_client_headers. Qed.
 
 (* ---- response direction ---- *)
 
